@@ -61,3 +61,26 @@ func verifTokOf(v interface{}) (int, bool) {
 	t, ok := v.(vtok)
 	return int(t), ok
 }
+
+// verifConcreteBuffer: an initialised, empty Buffer (no cleanup goroutine).
+func verifConcreteBuffer() *verifBufState {
+	s := &verifBufState{}
+	b := &Buffer{}
+	b.ctx, b.cancel = context.WithCancel(context.Background())
+	b.consumers = make(map[*consumer]int)
+	b.done = make(chan struct{})
+	b.cleaner = &CleanerConfig{Cleaner: DefaultCleaner, Cooldown: DefaultCleanerCooldown}
+	b.cond = sync.NewCond(&b.mutex)
+	s.b = b
+	return s
+}
+
+func (s *verifBufState) verifAddConsumerAt(committed, delta int) (*consumer, int, int) {
+	b := s.b
+	c := &consumer{done: make(chan struct{}), producer: b}
+	c.cond = sync.NewCond(&c.mutex)
+	c.ctx, c.cancel = context.WithCancel(b.ctx)
+	b.consumers[c] = committed
+	c.offset = delta
+	return c, committed, delta
+}
